@@ -15,7 +15,9 @@ scipy / igraph are modelled as their documented operations:
   stored entries with non-zero value — with multiplicity (`nzCoords`);
 * `igraph.Graph(n, edges, directed).simplify()` is the set of non-loop edges,
   undirected edges normalised to `(smaller, larger)` (`graphEdges`), listed in
-  row-major order (the harness sorts what igraph returns);
+  row-major order (the harness sorts what igraph returns; the order of the edge ids of an
+  adopted graph object, the per-edge loops over it and `igraph.Graph(n, edges)` itself are
+  modelled in `Model/ReprEdges.lean`);
 * a file format is a function `IGraph → IGraph` (`saveLoad`).
 -/
 namespace Pyunicorn.Repr
